@@ -239,17 +239,12 @@ func (l *DList[T]) Pop() *DoubleNode[T] {
 // Find searches for a node element in the linked list.
 // It returns the node in case the element is found otherwise nil.
 func (l *DList[T]) Find(val T) (*DoubleNode[T], bool) {
-	head := &l.DoubleNode
-
+	// The list is only read: it is walked with a pointer, the head is left untouched.
 	for n := &l.DoubleNode; n != nil; n = n.next {
 		if n.Value == val {
-			l.DoubleNode = *head
 			return n, true
 		}
 	}
-
-	// Move the pointer to the head of the linked list.
-	l.DoubleNode = *head
 
 	return nil, false
 }
@@ -263,18 +258,13 @@ func (l *DList[T]) First() T {
 
 // Last retrieves the last element of the doubly linked list.
 func (l *DList[T]) Last() T {
-	head := l.DoubleNode
-	var value T
-
-	for l.DoubleNode.next != nil {
-		l.DoubleNode = *l.DoubleNode.next
+	// The list is only read: it is walked with a pointer, the head is left untouched.
+	node := &l.DoubleNode
+	for node.next != nil {
+		node = node.next
 	}
-	value = l.DoubleNode.Value
 
-	// Move the pointer to the head of the linked list.
-	l.DoubleNode = head
-
-	return value
+	return node.Value
 }
 
 // Each iterates over the elements of the linked list and invokes
